@@ -110,9 +110,11 @@ fn run_three(bits: &Bits, consumed: &[u16], extra: &[u64], route: u8, rep: &mut 
     let z = model.zeros();
     // any public construction route of the plain vector (pushes with popped junk, complement(), iterators, conversions, ...)
     let mut bv = crate::props::c01::build_route(bits, route, &[route, 5, 1, 17]);
-    bv.enable_rank();
-    bv.enable_select();
-    bv.enable_select_zero();
+    // the supports are enabled in an order that depends on the case (enabling must work in any order)
+    for k in 0..3u8 {
+        crate::props::c01::enable(&mut bv, (k + route / 11) % 3);
+    }
+    bv.enable_pred_succ();
     let sv = sparse_from(bits);
     let rl = rl_from(bits);
     let plan = extreme_plan(&model, extra);
